@@ -606,6 +606,8 @@ class Surrogates(Cached):
         if surrogates.shape != original_data.shape:
             raise ValueError("original_data and surrogates must have the "
                              "same shape.")
+        if n_bins < 1:
+            raise ValueError("n_bins must be a positive integer.")
         #  Calculate symbolic time series and histograms
         #  Calculate 2D histograms and mutual information
         #  mi[i,j] gives the mutual information between the ith original_data
